@@ -26,8 +26,26 @@ def stub_procrustes(A, B, check_finite=True):
 
         return real(A, B, check_finite=check_finite)
     M = (B.T @ A).T
-    U, S, Vt = linalg.svd(M, full_matrices=True)
-    return U @ Vt, S.sum()
+    try:
+        U, S, Vt = linalg.svd(M, full_matrices=True)
+        return U @ Vt, S.sum()
+    except core.Unsupported:
+        if M.shape != (2, 2):
+            raise
+    # closed form for 2 x 2: maximise tr(R^T M) over O(2).  Rotations reach sqrt((a+d)^2 + (c-b)^2), reflections sqrt((a-d)^2 + (b+c)^2);
+    # the rotation is at least as good iff det M >= 0
+    a, b, c_, d = M[0, 0], M[0, 1], M[1, 0], M[1, 1]
+    rot = F_(a * d - b * c_ >= 0)
+    R = arrays.zeros((2, 2))
+    if bool(rot) if isinstance(rot, Formula) else rot:
+        rho = core.ssqrt((a + d) * (a + d) + (c_ - b) * (c_ - b))
+        cs, sn = (a + d) / rho, (c_ - b) / rho
+        R[0, 0], R[0, 1], R[1, 0], R[1, 1] = cs, -sn, sn, cs
+    else:
+        rho = core.ssqrt((a - d) * (a - d) + (b + c_) * (b + c_))
+        cs, sn = (a - d) / rho, (b + c_) / rho
+        R[0, 0], R[0, 1], R[1, 0], R[1, 1] = cs, sn, sn, -cs
+    return R, rho
 
 
 class LinRegStub:
@@ -119,6 +137,7 @@ class C18(runner.Check):
         add("refit-user-estimator", 1, 2, "I", "R35", True, cost=4)
         # a user-supplied regularised estimator only fixes the subspaces: the map must still be optimal for the training targets themselves
         add("optimal", 2, 2, "I", "R35", True, cost=8, user="ridge")
+        add("optimal", 2, 2, "I", "I", True, cost=10, user="ridge", coupled="R35")  # targets coupled to X through a rotation that is not a singular frame of X
         if tier == "thorough":
             for proj in (False, True):
                 add("structure", 3, 2, "H122", "R35", proj, cost=20)
@@ -152,6 +171,15 @@ class C18(runner.Check):
             for i in range(min(m, p)):
                 T[i, i] = t[i]
             Y = U @ T @ arrays.exact(Vy).T
+            if cfg.get("coupled"):
+                # X = U diag(1, 2); Y = U diag((s^2 + 1) / s) Qa diag(t): the ridge(alpha=1) coefficients are Qa diag(t) (library frames),
+                # while X^T Y = diag(s^2 + 1) Qa diag(t) is a general 2 x 2 matrix (closed-form 2 x 2 Procrustes)
+                Qa = linalg.frame(2, cfg["coupled"])
+                linalg.HINTS[:] = [Qa, linalg.frame(2, "I")]
+                X = U @ arrays.exact([[1, 0], [0, 2]])
+                Y = U @ arrays.exact([[2, 0], [0, Fr(5, 2)]]) @ arrays.exact(Qa) @ arrays.array([[t[0], 0], [0, t[1]]], dtype=object)
+                c.assume(t[0] != 0)
+                c.assume(t[1] != 0)
             if cfg.get("remainder"):
                 free = [j for j in range(n) if j not in cols and j != 0]
                 if free:
@@ -167,6 +195,10 @@ class C18(runner.Check):
         for i in range(min(m, p)):
             T[i, i] = float(values.get(f"t_{i}", 0.8 - 1.7 * i))
         Y = U @ T @ np.array(Vy, dtype=float).T
+        if cfg.get("coupled"):
+            Qa = np.array(linalg.frame(2, cfg["coupled"]), dtype=float)
+            X = U @ np.diag([1.0, 2.0])
+            Y = U @ np.diag([2.0, 2.5]) @ Qa @ np.diag([T[0, 0], T[1, 1]])
         if cfg.get("remainder"):
             free = [j for j in range(n) if j not in cols and j != 0]
             if free:
